@@ -28,6 +28,8 @@ def main(argv=None):
     return mod.replay(art)
   if args.part:
     os.environ['VERIF_PART'] = args.part
+  if args.tier == 'thorough':
+    os.environ.setdefault('VERIF_TIMEOUT', '3300')      # (hang guard of the worker pools: thorough enumerations take longer)
   return mod.run(args.tier)
 
 
